@@ -32,7 +32,7 @@ ASSUMPTIONS = ["'committed' = a version the pointer named after a call that retu
 REQUIRED_LABELS = {"quick": ["orphan-higher-than-committed", "damage:stale", "damage:deleted", "action:create_table", "versions>=10"], "thorough": ["orphan-higher-than-committed"]}
 
 DAMAGES = ["deleted", "empty", "whitespace", "random", "invalid_utf8", "digits_missing", "digits_lower", "digits_huge", "legacy_name", "legacy_lower", "missing_file", "stale",
-           "orphan", "current_lf", "current_crlf", "current_spaces", "path_sep", "dotdot", "long_garbage"]
+           "orphan", "current_lf", "current_crlf", "current_spaces", "path_sep", "dotdot", "long_garbage", "digits_unicode", "digits_5000", "name_5000"]
 ACTIONS = ["load_table", "create_table", "append", "append_then_lose_pointer", "scan", "gc", "open_during_commit"]
 
 
@@ -173,6 +173,12 @@ def check_case(case):
             open(hint, "wb").write(b"../metadata/" + L.encode())
         elif dmg == "long_garbage":
             open(hint, "wb").write(case["rnd"] * 500)
+        elif dmg == "digits_unicode":
+            open(hint, "wb").write("\u00b2".encode("utf-8"))  # str.isdigit() is true for it, int() refuses it
+        elif dmg == "digits_5000":
+            open(hint, "wb").write(b"7" * 5000)  # beyond the interpreter's integer-string conversion limit
+        elif dmg == "name_5000":
+            open(hint, "wb").write(b"v" + b"7" * 5000 + b"-deadbeef.metadata.json")
         out["nontrivial"] = bool(higher) or wrong_existing
 
         # classification of the root cause if something goes wrong (for bucketing only)
@@ -338,7 +344,7 @@ def check_case(case):
 
 
 # ---------------- the same on object storage (conditional writes): the pointer is an S3 object ----------------
-S3_DAMAGES = ["deleted", "empty", "whitespace", "random", "invalid_utf8", "digits_missing", "digits_huge", "missing_file", "current_lf", "long_garbage"]
+S3_DAMAGES = ["deleted", "empty", "whitespace", "random", "invalid_utf8", "digits_missing", "digits_huge", "missing_file", "current_lf", "long_garbage", "digits_unicode", "digits_5000"]
 
 
 @st.composite
@@ -370,7 +376,7 @@ def check_s3(case):
         dmg = case["damage"]
         payload = {"empty": b"", "whitespace": b" \n\t\r\n", "random": case["rnd"], "invalid_utf8": b"\xff\xfe" + case["rnd"], "digits_missing": str(vL + 50).encode(),
                    "digits_huge": b"9" * 40, "missing_file": f"v{vL + 3}-deadbeef.metadata.json".encode(), "current_lf": L.encode() + b"\n",
-                   "long_garbage": case["rnd"] * 500}.get(dmg)
+                   "long_garbage": case["rnd"] * 500, "digits_unicode": "\u00b2".encode("utf-8"), "digits_5000": b"7" * 5000}.get(dmg)
         if dmg == "deleted":
             w.fake.objects.pop(key, None)
         else:
